@@ -114,7 +114,7 @@ func (g *gen) docDecls() {
 		case 8: // string literals with invisible and escaped characters
 			g.feat("odd_string_literals")
 			name := g.styled(false)
-			lits := []string{"\"a\u200bb\"", "\"\\u200b\"", "`\u200b`", "\"\ufeff\"", "\"\u0007\"", "\"\\a\\b\"", "`\t tab`", "\"e\u0301\"", "\"\U0001F468\u200d\U0001F469\"", "\"\u00a0\"", "'\u200b'", "\"\u202e\"", "\"\x7f\"", "\"\\x00\u200b\"", "\"\u200b\\n\"", "`\u0001`"}
+			lits := []string{"\"a\u200bb\"", "\"\\u200b\"", "`\u200b`", "\"\\ufeff\"", "\"\u0007\"", "\"\\a\\b\"", "`\t tab`", "\"e\u0301\"", "\"\U0001F468\u200d\U0001F469\"", "\"\u00a0\"", "'\u200b'", "\"\u202e\"", "\"\x7f\"", "\"\\x00\u200b\"", "\"\u200b\\n\"", "`\u0001`"}
 			sb.WriteString("var " + name + " = []any{" + pick(g, "oddlit", lits...) + ", " + pick(g, "oddlit", lits...) + ", " + pick(g, "oddlit", lits...) + "}")
 		case 9: // documented exported function and method set on one type with inconsistent receiver names
 			g.feat("receiver_names")
@@ -133,7 +133,7 @@ func (g *gen) docDecls() {
 		default: // deprecated objects and their uses
 			g.feat("deprecated_objects")
 			fn, tn := g.styled(true), g.styled(true)
-			sb.WriteString("// " + fn + " is old.\n//\n// Deprecated: use something else.\nfunc " + fn + "() {}\n\n// " + tn + " is old.\n//\n// Deprecated: gone.\ntype " + tn + " struct {\n\t// Deprecated: field.\n\tF int\n}\n\nfunc " + g.fresh("useDeprecated") + "() {\n\t" + fn + "()\n\t_ = " + tn + "{F: 1}\n\tvar x " + tn + "\n\t_ = x.F\n\t_ = " + pick(g, "stddepr", "strings.Title(\"x\")", "ioutil.Discard", "os.SEEK_SET", "syscall.StringByteSlice", "reflect.SliceHeader{}", "rand.Seed", "http.ErrWriteAfterFlush") + "\n}")
+			sb.WriteString("// " + fn + " is old.\n//\n// Deprecated: use something else.\nfunc " + fn + "() {}\n\n// " + tn + " is old.\n//\n// Deprecated: gone.\ntype " + tn + " struct {\n\t// Deprecated: field.\n\tF int\n}\n\nfunc " + g.fresh("useDeprecated") + "() {\n\t" + fn + "()\n\t_ = " + tn + "{F: 1}\n\tvar x " + tn + "\n\t_ = x.F\n\t_ = " + pick(g, "stddepr", "strings.Title(\"x\")", "ioutil.Discard", "os.SEEK_SET", "syscall.StringByteSlice", "reflect.SliceHeader{}", "rand.Seed", "sort.SearchInts") + "\n}")
 		}
 		return strings.TrimRight(sb.String(), "\n")
 	})
